@@ -202,6 +202,11 @@ thread_local! {
     static SITE_LOG: std::cell::RefCell<Option<Vec<(u32, u64)>>> = const { std::cell::RefCell::new(None) };
 }
 /// starts (or restarts) recording the calling thread's hits of library hook sites together with a stamp of the global logical clock
+thread_local! {
+    /// a counter of hook-site hits of this thread that another thread can read (sequential lanes: is a script that does not return still taking steps?)
+    static STEP_COUNTER: std::cell::RefCell<Option<Arc<AtomicU64>>> = const { std::cell::RefCell::new(None) };
+}
+pub fn count_steps_into(c: Arc<AtomicU64>) { STEP_COUNTER.with(|s| *s.borrow_mut() = Some(c)) }
 pub fn site_log_start() { SITE_LOG.with(|l| *l.borrow_mut() = Some(Vec::new())) }
 /// what was recorded since `site_log_start`; recording goes on
 pub fn site_log_take() -> Vec<(u32, u64)> { SITE_LOG.with(|l| l.borrow_mut().as_mut().map(std::mem::take).unwrap_or_default()) }
@@ -232,6 +237,7 @@ pub static QUIET_PANICS: AtomicBool = AtomicBool::new(true);
 
 fn hook(site: u32, kind: u32) {
     if (site as usize) < MAX_SITES { SITE_HITS[site as usize].fetch_add(1, Relaxed); }
+    let _ = STEP_COUNTER.try_with(|c| if let Ok(c) = c.try_borrow() { if let Some(c) = c.as_ref() { c.fetch_add(1, Relaxed); } });
     if site < H_BASE { let _ = SITE_LOG.try_with(|l| if let Ok(mut l) = l.try_borrow_mut() { if let Some(v) = l.as_mut() { if v.len() < 4096 { v.push((site, crate::drive::stamp())) } } }); }
     match TL.with(|t| t.get()) {
         Tl::None => chaos_delay(kind),      // (no effect unless the thread asked for delays: `enable_thread_chaos`, used by the tokio lanes' worker threads)
